@@ -3,3 +3,4 @@ import Verif.Properties.C01
 #print axioms C01.validated_start_pairs
 #print axioms C01.example_accepts
 #print axioms C01.example_rejects
+#print axioms C01.bisim_sound
